@@ -24,6 +24,17 @@ type ('a, 'b) sum =
 let fst = function
 | (x, _) -> x
 
+(** val snd : ('a1 * 'a2) -> 'a2 **)
+
+let snd = function
+| (_, y) -> y
+
+(** val length : 'a1 list -> nat **)
+
+let rec length = function
+| [] -> O
+| _ :: l' -> S (length l')
+
 (** val app : 'a1 list -> 'a1 list -> 'a1 list **)
 
 let rec app l m =
@@ -38,35 +49,51 @@ type comparison =
 
 (** val add : nat -> nat -> nat **)
 
-let rec add n m =
-  match n with
+let rec add n0 m =
+  match n0 with
   | O -> m
   | S p -> S (add p m)
 
+(** val mul : nat -> nat -> nat **)
+
+let rec mul n0 m =
+  match n0 with
+  | O -> O
+  | S p -> add m (mul p m)
+
 (** val sub : nat -> nat -> nat **)
 
-let rec sub n m =
-  match n with
-  | O -> n
+let rec sub n0 m =
+  match n0 with
+  | O -> n0
   | S k -> (match m with
-            | O -> n
+            | O -> n0
             | S l -> sub k l)
 
 (** val max : nat -> nat -> nat **)
 
-let rec max n m =
-  match n with
+let rec max n0 m =
+  match n0 with
   | O -> m
   | S n' -> (match m with
-             | O -> n
+             | O -> n0
              | S m' -> S (max n' m'))
 
 module Nat =
  struct
+  (** val sub : nat -> nat -> nat **)
+
+  let rec sub n0 m =
+    match n0 with
+    | O -> n0
+    | S k -> (match m with
+              | O -> n0
+              | S l -> sub k l)
+
   (** val eqb : nat -> nat -> bool **)
 
-  let rec eqb n m =
-    match n with
+  let rec eqb n0 m =
+    match n0 with
     | O -> (match m with
             | O -> true
             | S _ -> false)
@@ -76,8 +103,8 @@ module Nat =
 
   (** val leb : nat -> nat -> bool **)
 
-  let rec leb n m =
-    match n with
+  let rec leb n0 m =
+    match n0 with
     | O -> true
     | S n' -> (match m with
                | O -> false
@@ -85,13 +112,13 @@ module Nat =
 
   (** val ltb : nat -> nat -> bool **)
 
-  let ltb n m =
-    leb (S n) m
+  let ltb n0 m =
+    leb (S n0) m
 
   (** val compare : nat -> nat -> comparison **)
 
-  let rec compare n m =
-    match n with
+  let rec compare n0 m =
+    match n0 with
     | O -> (match m with
             | O -> Eq
             | S _ -> Lt)
@@ -101,13 +128,47 @@ module Nat =
 
   (** val max : nat -> nat -> nat **)
 
-  let rec max n m =
-    match n with
+  let rec max n0 m =
+    match n0 with
     | O -> m
     | S n' -> (match m with
-               | O -> n
+               | O -> n0
                | S m' -> S (max n' m'))
+
+  (** val divmod : nat -> nat -> nat -> nat -> nat * nat **)
+
+  let rec divmod x y q u =
+    match x with
+    | O -> (q, u)
+    | S x' ->
+      (match u with
+       | O -> divmod x' y (S q) y
+       | S u' -> divmod x' y q u')
+
+  (** val div : nat -> nat -> nat **)
+
+  let div x y = match y with
+  | O -> y
+  | S y' -> fst (divmod x y' O y')
+
+  (** val modulo : nat -> nat -> nat **)
+
+  let modulo x = function
+  | O -> x
+  | S y' -> sub y' (snd (divmod x y' O y'))
  end
+
+(** val tl : 'a1 list -> 'a1 list **)
+
+let tl = function
+| [] -> []
+| _ :: m -> m
+
+(** val rev : 'a1 list -> 'a1 list **)
+
+let rec rev = function
+| [] -> []
+| x :: l' -> app (rev l') (x :: [])
 
 (** val map : ('a1 -> 'a2) -> 'a1 list -> 'a2 list **)
 
@@ -152,10 +213,97 @@ let rec filter f = function
 | [] -> []
 | x :: l0 -> if f x then x :: (filter f l0) else filter f l0
 
+(** val firstn : nat -> 'a1 list -> 'a1 list **)
+
+let rec firstn n0 l =
+  match n0 with
+  | O -> []
+  | S n1 -> (match l with
+             | [] -> []
+             | a :: l0 -> a :: (firstn n1 l0))
+
 (** val list_max : nat list -> nat **)
 
 let list_max l =
   fold_right max O l
+
+type positive =
+| XI of positive
+| XO of positive
+| XH
+
+type n =
+| N0
+| Npos of positive
+
+module Pos =
+ struct
+  (** val succ : positive -> positive **)
+
+  let rec succ = function
+  | XI p -> XO (succ p)
+  | XO p -> XI p
+  | XH -> XO XH
+
+  (** val eqb : positive -> positive -> bool **)
+
+  let rec eqb p q =
+    match p with
+    | XI p0 -> (match q with
+                | XI q0 -> eqb p0 q0
+                | _ -> false)
+    | XO p0 -> (match q with
+                | XO q0 -> eqb p0 q0
+                | _ -> false)
+    | XH -> (match q with
+             | XH -> true
+             | _ -> false)
+
+  (** val iter_op : ('a1 -> 'a1 -> 'a1) -> positive -> 'a1 -> 'a1 **)
+
+  let rec iter_op op p a =
+    match p with
+    | XI p0 -> op a (iter_op op p0 (op a a))
+    | XO p0 -> iter_op op p0 (op a a)
+    | XH -> a
+
+  (** val to_nat : positive -> nat **)
+
+  let to_nat x =
+    iter_op add x (S O)
+
+  (** val of_succ_nat : nat -> positive **)
+
+  let rec of_succ_nat = function
+  | O -> XH
+  | S x -> succ (of_succ_nat x)
+ end
+
+module N =
+ struct
+  (** val eqb : n -> n -> bool **)
+
+  let eqb n0 m =
+    match n0 with
+    | N0 -> (match m with
+             | N0 -> true
+             | Npos _ -> false)
+    | Npos p -> (match m with
+                 | N0 -> false
+                 | Npos q -> Pos.eqb p q)
+
+  (** val to_nat : n -> nat **)
+
+  let to_nat = function
+  | N0 -> O
+  | Npos p -> Pos.to_nat p
+
+  (** val of_nat : nat -> n **)
+
+  let of_nat = function
+  | O -> N0
+  | S n' -> Npos (Pos.of_succ_nat n')
+ end
 
 type term =
 | Var of nat
@@ -426,8 +574,8 @@ let nf_of = function
 
 (** val iter : (term -> term option) -> nat -> term -> term option **)
 
-let rec iter f n t =
-  match n with
+let rec iter f n0 t =
+  match n0 with
   | O -> Some t
   | S m -> (match f t with
             | Some u -> iter f m u
@@ -597,6 +745,603 @@ let rec supercombb fuel t =
        | Abs _ -> supercombb f e
        | App (l, r0) -> (&&) (aa l) (aa r0)
        in aa (strip t))
+
+type cchar = { code : n; is_alphabetic : bool; is_alphanumeric : bool;
+               is_whitespace : bool; to_digit16 : nat option }
+
+(** val c_backslash : n **)
+
+let c_backslash =
+  Npos (XO (XO (XI (XI (XI (XO XH))))))
+
+(** val c_lambda : n **)
+
+let c_lambda =
+  Npos (XI (XI (XO (XI (XI (XI (XO (XI (XI XH)))))))))
+
+(** val c_lparen : n **)
+
+let c_lparen =
+  Npos (XO (XO (XO (XI (XO XH)))))
+
+(** val c_rparen : n **)
+
+let c_rparen =
+  Npos (XI (XO (XO (XI (XO XH)))))
+
+(** val c_dot : n **)
+
+let c_dot =
+  Npos (XO (XI (XI (XI (XO XH)))))
+
+(** val is_char : n -> cchar -> bool **)
+
+let is_char n0 c =
+  N.eqb c.code n0
+
+(** val is_lambda_glyph : cchar -> bool **)
+
+let is_lambda_glyph c =
+  (||) (is_char c_backslash c) (is_char c_lambda c)
+
+type name = n list
+
+(** val name_eqb : name -> name -> bool **)
+
+let rec name_eqb a b =
+  match a with
+  | [] -> (match b with
+           | [] -> true
+           | _ :: _ -> false)
+  | x :: a' ->
+    (match b with
+     | [] -> false
+     | y :: b' -> (&&) (N.eqb x y) (name_eqb a' b'))
+
+type atok =
+| TLam of name
+| TLp
+| TRp
+| TIdx of nat
+| TName of name
+
+type lex_result =
+| LexOk of atok list
+| LexBadStart of nat * n
+| LexBad
+
+(** val lex_dbr : nat -> cchar list -> lex_result **)
+
+let rec lex_dbr i = function
+| [] -> LexOk []
+| c :: r0 ->
+  let k = fun t ->
+    match lex_dbr (S i) r0 with
+    | LexOk ts -> LexOk (app t ts)
+    | x -> x
+  in
+  if is_lambda_glyph c
+  then k ((TLam []) :: [])
+  else if is_char c_lparen c
+       then k (TLp :: [])
+       else if is_char c_rparen c
+            then k (TRp :: [])
+            else (match c.to_digit16 with
+                  | Some n0 -> k ((TIdx n0) :: [])
+                  | None ->
+                    if c.is_whitespace then k [] else LexBadStart (i, c.code))
+
+type lstate =
+| LTop
+| LBinder0
+| LBinder of name
+| LName of name
+
+(** val lex_cla : lstate -> nat -> cchar list -> lex_result **)
+
+let rec lex_cla st i = function
+| [] ->
+  (match st with
+   | LTop -> LexOk []
+   | LName nm -> LexOk ((TName nm) :: [])
+   | _ -> LexBad)
+| c :: r0 ->
+  let push = fun t res ->
+    match res with
+    | LexOk ts -> LexOk (t :: ts)
+    | _ -> res
+  in
+  let top = fun _ ->
+    if is_lambda_glyph c
+    then lex_cla LBinder0 (S i) r0
+    else if is_char c_lparen c
+         then push TLp (lex_cla LTop (S i) r0)
+         else if is_char c_rparen c
+              then push TRp (lex_cla LTop (S i) r0)
+              else if c.is_whitespace
+                   then lex_cla LTop (S i) r0
+                   else if c.is_alphabetic
+                        then lex_cla (LName (c.code :: [])) (S i) r0
+                        else LexBadStart (i, c.code)
+  in
+  (match st with
+   | LTop -> top ()
+   | LBinder0 ->
+     if (&&) c.is_alphabetic (negb (is_char c_dot c))
+     then lex_cla (LBinder (c.code :: [])) (S i) r0
+     else LexBad
+   | LBinder nm ->
+     if is_char c_dot c
+     then push (TLam nm) (lex_cla LTop (S i) r0)
+     else if c.is_alphanumeric
+          then lex_cla (LBinder (app nm (c.code :: []))) (S i) r0
+          else LexBad
+   | LName nm ->
+     if c.is_alphanumeric
+     then lex_cla (LName (app nm (c.code :: []))) (S i) r0
+     else push (TName nm) (top ()))
+
+(** val index_of : name -> name list -> nat option **)
+
+let rec index_of nm = function
+| [] -> None
+| x :: r0 ->
+  if name_eqb x nm
+  then Some O
+  else option_map (fun x0 -> S x0) (index_of nm r0)
+
+(** val apps : term list -> term option **)
+
+let apps = function
+| [] -> None
+| t :: r0 -> Some (fold_left (fun x x0 -> App (x, x0)) r0 t)
+
+(** val rgroup :
+    nat -> name list -> name list -> atok list -> ((term * atok list) * name
+    list) option **)
+
+let rec rgroup fuel env frees toks =
+  match fuel with
+  | O -> None
+  | S f ->
+    let ratoms =
+      let rec ratoms fuel2 frees0 toks0 =
+        match fuel2 with
+        | O -> None
+        | S f2 ->
+          (match toks0 with
+           | [] -> Some (([], toks0), frees0)
+           | a :: r0 ->
+             (match a with
+              | TLam _ -> Some (([], toks0), frees0)
+              | TLp ->
+                (match rgroup f env frees0 r0 with
+                 | Some p ->
+                   let (p0, frees') = p in
+                   let (t, l) = p0 in
+                   (match l with
+                    | [] -> None
+                    | a0 :: r' ->
+                      (match a0 with
+                       | TLam _ -> None
+                       | TLp -> None
+                       | TRp ->
+                         (match ratoms f2 frees' r' with
+                          | Some p1 ->
+                            let (p2, fr) = p1 in
+                            let (ts, r'') = p2 in Some (((t :: ts), r''), fr)
+                          | None -> None)
+                       | _ -> None))
+                 | None -> None)
+              | TRp -> Some (([], toks0), frees0)
+              | TIdx n0 ->
+                (match ratoms f2 frees0 r0 with
+                 | Some p ->
+                   let (p0, fr) = p in
+                   let (ts, r') = p0 in Some ((((Var n0) :: ts), r'), fr)
+                 | None -> None)
+              | TName s ->
+                (match index_of s env with
+                 | Some i ->
+                   (match ratoms f2 frees0 r0 with
+                    | Some p ->
+                      let (p0, fr) = p in
+                      let (ts, r') = p0 in
+                      Some ((((Var (S i)) :: ts), r'), fr)
+                    | None -> None)
+                 | None ->
+                   let frees' =
+                     match index_of s frees0 with
+                     | Some _ -> frees0
+                     | None -> app frees0 (s :: [])
+                   in
+                   (match index_of s frees' with
+                    | Some j ->
+                      (match ratoms f2 frees' r0 with
+                       | Some p ->
+                         let (p0, fr) = p in
+                         let (ts, r') = p0 in
+                         Some ((((Var
+                         (add (add (length env) j) (S O))) :: ts), r'), fr)
+                       | None -> None)
+                    | None -> None))))
+      in ratoms
+    in
+    (match ratoms fuel frees toks with
+     | Some p ->
+       let (p0, frees1) = p in
+       let (atoms, rest) = p0 in
+       (match rest with
+        | [] ->
+          (match apps atoms with
+           | Some t -> Some ((t, rest), frees1)
+           | None -> None)
+        | a :: rest' ->
+          (match a with
+           | TLam b ->
+             (match rgroup f (b :: env) frees1 rest' with
+              | Some p1 ->
+                let (p2, frees2) = p1 in
+                let (body, rest'') = p2 in
+                (match apps (app atoms ((Abs body) :: [])) with
+                 | Some t -> Some ((t, rest''), frees2)
+                 | None -> None)
+              | None -> None)
+           | _ ->
+             (match apps atoms with
+              | Some t -> Some ((t, rest), frees1)
+              | None -> None)))
+     | None -> None)
+
+(** val rparse : atok list -> term option **)
+
+let rparse toks =
+  match rgroup (S (length toks)) [] [] toks with
+  | Some p ->
+    let (p0, _) = p in
+    let (t, l0) = p0 in (match l0 with
+                         | [] -> Some t
+                         | _ :: _ -> None)
+  | None -> None
+
+type ref_result =
+| RefOk of term
+| RefBadStart of nat * n
+| RefErr
+
+(** val ref_parse : bool -> cchar list -> ref_result **)
+
+let ref_parse classic s =
+  match if classic then lex_cla LTop O s else lex_dbr O s with
+  | LexOk ts -> (match rparse ts with
+                 | Some t -> RefOk t
+                 | None -> RefErr)
+  | LexBadStart (i, c) -> RefBadStart (i, c)
+  | LexBad -> RefErr
+
+type str = n list
+
+(** val b26_fuel : nat -> nat -> str **)
+
+let rec b26_fuel fuel n0 =
+  match fuel with
+  | O -> []
+  | S f ->
+    if Nat.ltb n0 (S (S (S (S (S (S (S (S (S (S (S (S (S (S (S (S (S (S (S (S
+         (S (S (S (S (S (S O))))))))))))))))))))))))))
+    then (N.of_nat
+           (add (S (S (S (S (S (S (S (S (S (S (S (S (S (S (S (S (S (S (S (S
+             (S (S (S (S (S (S (S (S (S (S (S (S (S (S (S (S (S (S (S (S (S
+             (S (S (S (S (S (S (S (S (S (S (S (S (S (S (S (S (S (S (S (S (S
+             (S (S (S (S (S (S (S (S (S (S (S (S (S (S (S (S (S (S (S (S (S
+             (S (S (S (S (S (S (S (S (S (S (S (S (S (S
+             O)))))))))))))))))))))))))))))))))))))))))))))))))))))))))))))))))))))))))))))))))))))))))))))))))
+             n0)) :: []
+    else app
+           (b26_fuel f
+             (sub
+               (Nat.div n0 (S (S (S (S (S (S (S (S (S (S (S (S (S (S (S (S (S
+                 (S (S (S (S (S (S (S (S (S O))))))))))))))))))))))))))) (S
+               O)))
+           ((N.of_nat
+              (add (S (S (S (S (S (S (S (S (S (S (S (S (S (S (S (S (S (S (S
+                (S (S (S (S (S (S (S (S (S (S (S (S (S (S (S (S (S (S (S (S
+                (S (S (S (S (S (S (S (S (S (S (S (S (S (S (S (S (S (S (S (S
+                (S (S (S (S (S (S (S (S (S (S (S (S (S (S (S (S (S (S (S (S
+                (S (S (S (S (S (S (S (S (S (S (S (S (S (S (S (S (S (S
+                O)))))))))))))))))))))))))))))))))))))))))))))))))))))))))))))))))))))))))))))))))))))))))))))))))
+                (Nat.modulo n0 (S (S (S (S (S (S (S (S (S (S (S (S (S (S (S
+                  (S (S (S (S (S (S (S (S (S (S (S
+                  O))))))))))))))))))))))))))))) :: [])
+
+(** val b26 : nat -> str **)
+
+let b26 n0 =
+  b26_fuel (S n0) n0
+
+(** val s_undef : str **)
+
+let s_undef =
+  (Npos (XI (XO (XI (XO (XI (XI XH))))))) :: ((Npos (XO (XI (XI (XI (XO (XI
+    XH))))))) :: ((Npos (XO (XO (XI (XO (XO (XI XH))))))) :: ((Npos (XI (XO
+    (XI (XO (XO (XI XH))))))) :: ((Npos (XO (XI (XI (XO (XO (XI
+    XH))))))) :: ((Npos (XI (XO (XO (XI (XO (XI XH))))))) :: ((Npos (XO (XI
+    (XI (XI (XO (XI XH))))))) :: ((Npos (XI (XO (XI (XO (XO (XI
+    XH))))))) :: ((Npos (XO (XO (XI (XO (XO (XI XH))))))) :: []))))))))
+
+type position =
+| Top
+| Operator
+| Operand
+
+(** val tdepth : term -> nat **)
+
+let rec tdepth = function
+| Var _ -> O
+| Abs b -> S (tdepth b)
+| App (l, r0) -> Nat.max (tdepth l) (tdepth r0)
+
+(** val print_cla : n -> nat -> term -> position -> nat -> str **)
+
+let rec print_cla lam maxd t pos depth =
+  match t with
+  | Var i ->
+    (match i with
+     | O -> s_undef
+     | S _ ->
+       if Nat.leb i depth
+       then b26 (sub depth i)
+       else b26 (sub (add maxd (sub i depth)) (S O)))
+  | Abs b ->
+    let s =
+      app (lam :: [])
+        (app (b26 depth)
+          (app ((Npos (XO (XI (XI (XI (XO XH)))))) :: [])
+            (print_cla lam maxd b Top (S depth))))
+    in
+    (match pos with
+     | Top -> s
+     | _ ->
+       app ((Npos (XO (XO (XO (XI (XO XH)))))) :: [])
+         (app s ((Npos (XI (XO (XO (XI (XO XH)))))) :: [])))
+  | App (l, r0) ->
+    let s =
+      app (print_cla lam maxd l Operator depth)
+        (app ((Npos (XO (XO (XO (XO (XO XH)))))) :: [])
+          (print_cla lam maxd r0 Operand depth))
+    in
+    (match pos with
+     | Operand ->
+       app ((Npos (XO (XO (XO (XI (XO XH)))))) :: [])
+         (app s ((Npos (XI (XO (XO (XI (XO XH)))))) :: []))
+     | _ -> s)
+
+(** val ref_print_cla : n -> term -> str **)
+
+let ref_print_cla lam t =
+  print_cla lam (tdepth t) t Top O
+
+(** val hexd : nat -> n **)
+
+let hexd d =
+  if Nat.ltb d (S (S (S (S (S (S (S (S (S (S O))))))))))
+  then N.of_nat
+         (add (S (S (S (S (S (S (S (S (S (S (S (S (S (S (S (S (S (S (S (S (S
+           (S (S (S (S (S (S (S (S (S (S (S (S (S (S (S (S (S (S (S (S (S (S
+           (S (S (S (S (S O)))))))))))))))))))))))))))))))))))))))))))))))) d)
+  else N.of_nat
+         (add (S (S (S (S (S (S (S (S (S (S (S (S (S (S (S (S (S (S (S (S (S
+           (S (S (S (S (S (S (S (S (S (S (S (S (S (S (S (S (S (S (S (S (S (S
+           (S (S (S (S (S (S (S (S (S (S (S (S
+           O))))))))))))))))))))))))))))))))))))))))))))))))))))))) d)
+
+(** val print_dbr : n -> term -> position -> str **)
+
+let rec print_dbr lam t pos =
+  match t with
+  | Var i -> (match i with
+              | O -> s_undef
+              | S _ -> (hexd i) :: [])
+  | Abs b ->
+    let s = app (lam :: []) (print_dbr lam b Top) in
+    (match pos with
+     | Top -> s
+     | _ ->
+       app ((Npos (XO (XO (XO (XI (XO XH)))))) :: [])
+         (app s ((Npos (XI (XO (XO (XI (XO XH)))))) :: [])))
+  | App (l, r0) ->
+    let s = app (print_dbr lam l Operator) (print_dbr lam r0 Operand) in
+    (match pos with
+     | Operand ->
+       app ((Npos (XO (XO (XO (XI (XO XH)))))) :: [])
+         (app s ((Npos (XI (XO (XO (XI (XO XH)))))) :: []))
+     | _ -> s)
+
+(** val ref_print_dbr : n -> term -> str **)
+
+let ref_print_dbr lam t =
+  print_dbr lam t Top
+
+(** val indices_in : nat -> nat -> term -> bool **)
+
+let rec indices_in lo hi = function
+| Var i -> (&&) (Nat.leb lo i) (Nat.leb i hi)
+| Abs b -> indices_in lo hi b
+| App (l, r0) -> (&&) (indices_in lo hi l) (indices_in lo hi r0)
+
+(** val nat_index_of : nat -> nat list -> nat option **)
+
+let rec nat_index_of x = function
+| [] -> None
+| y :: r0 ->
+  if Nat.eqb x y
+  then Some O
+  else option_map (fun x0 -> S x0) (nat_index_of x r0)
+
+(** val canon_at : nat -> nat list -> term -> term * nat list **)
+
+let rec canon_at d frees = function
+| Var i ->
+  if Nat.leb i d
+  then ((Var i), frees)
+  else let lvl = sub i d in
+       (match nat_index_of lvl frees with
+        | Some j -> ((Var (add (add d j) (S O))), frees)
+        | None ->
+          ((Var (add (add d (length frees)) (S O))), (app frees (lvl :: []))))
+| Abs b -> let (b', f) = canon_at (S d) frees b in ((Abs b'), f)
+| App (l, r0) ->
+  let (l', f1) = canon_at d frees l in
+  let (r', f2) = canon_at d f1 r0 in ((App (l', r')), f2)
+
+(** val canon : term -> term **)
+
+let canon t =
+  fst (canon_at O [] t)
+
+(** val classify : n -> cchar **)
+
+let classify c =
+  let n0 = N.to_nat c in
+  let lower =
+    (&&)
+      (Nat.leb (S (S (S (S (S (S (S (S (S (S (S (S (S (S (S (S (S (S (S (S (S
+        (S (S (S (S (S (S (S (S (S (S (S (S (S (S (S (S (S (S (S (S (S (S (S
+        (S (S (S (S (S (S (S (S (S (S (S (S (S (S (S (S (S (S (S (S (S (S (S
+        (S (S (S (S (S (S (S (S (S (S (S (S (S (S (S (S (S (S (S (S (S (S (S
+        (S (S (S (S (S (S (S
+        O)))))))))))))))))))))))))))))))))))))))))))))))))))))))))))))))))))))))))))))))))))))))))))))))))
+        n0)
+      (Nat.leb n0 (S (S (S (S (S (S (S (S (S (S (S (S (S (S (S (S (S (S (S (S
+        (S (S (S (S (S (S (S (S (S (S (S (S (S (S (S (S (S (S (S (S (S (S (S
+        (S (S (S (S (S (S (S (S (S (S (S (S (S (S (S (S (S (S (S (S (S (S (S
+        (S (S (S (S (S (S (S (S (S (S (S (S (S (S (S (S (S (S (S (S (S (S (S
+        (S (S (S (S (S (S (S (S (S (S (S (S (S (S (S (S (S (S (S (S (S (S (S
+        (S (S (S (S (S (S (S (S (S (S
+        O)))))))))))))))))))))))))))))))))))))))))))))))))))))))))))))))))))))))))))))))))))))))))))))))))))))))))))))))))))))))))))
+  in
+  let upper =
+    (&&)
+      (Nat.leb (S (S (S (S (S (S (S (S (S (S (S (S (S (S (S (S (S (S (S (S (S
+        (S (S (S (S (S (S (S (S (S (S (S (S (S (S (S (S (S (S (S (S (S (S (S
+        (S (S (S (S (S (S (S (S (S (S (S (S (S (S (S (S (S (S (S (S (S
+        O))))))))))))))))))))))))))))))))))))))))))))))))))))))))))))))))) n0)
+      (Nat.leb n0 (S (S (S (S (S (S (S (S (S (S (S (S (S (S (S (S (S (S (S (S
+        (S (S (S (S (S (S (S (S (S (S (S (S (S (S (S (S (S (S (S (S (S (S (S
+        (S (S (S (S (S (S (S (S (S (S (S (S (S (S (S (S (S (S (S (S (S (S (S
+        (S (S (S (S (S (S (S (S (S (S (S (S (S (S (S (S (S (S (S (S (S (S (S
+        (S
+        O)))))))))))))))))))))))))))))))))))))))))))))))))))))))))))))))))))))))))))))))))))))))))))
+  in
+  let digit =
+    (&&)
+      (Nat.leb (S (S (S (S (S (S (S (S (S (S (S (S (S (S (S (S (S (S (S (S (S
+        (S (S (S (S (S (S (S (S (S (S (S (S (S (S (S (S (S (S (S (S (S (S (S
+        (S (S (S (S O)))))))))))))))))))))))))))))))))))))))))))))))) n0)
+      (Nat.leb n0 (S (S (S (S (S (S (S (S (S (S (S (S (S (S (S (S (S (S (S (S
+        (S (S (S (S (S (S (S (S (S (S (S (S (S (S (S (S (S (S (S (S (S (S (S
+        (S (S (S (S (S (S (S (S (S (S (S (S (S (S
+        O))))))))))))))))))))))))))))))))))))))))))))))))))))))))))
+  in
+  let greek_lambda =
+    Nat.eqb n0 (S (S (S (S (S (S (S (S (S (S (S (S (S (S (S (S (S (S (S (S (S
+      (S (S (S (S (S (S (S (S (S (S (S (S (S (S (S (S (S (S (S (S (S (S (S (S
+      (S (S (S (S (S (S (S (S (S (S (S (S (S (S (S (S (S (S (S (S (S (S (S (S
+      (S (S (S (S (S (S (S (S (S (S (S (S (S (S (S (S (S (S (S (S (S (S (S (S
+      (S (S (S (S (S (S (S (S (S (S (S (S (S (S (S (S (S (S (S (S (S (S (S (S
+      (S (S (S (S (S (S (S (S (S (S (S (S (S (S (S (S (S (S (S (S (S (S (S (S
+      (S (S (S (S (S (S (S (S (S (S (S (S (S (S (S (S (S (S (S (S (S (S (S (S
+      (S (S (S (S (S (S (S (S (S (S (S (S (S (S (S (S (S (S (S (S (S (S (S (S
+      (S (S (S (S (S (S (S (S (S (S (S (S (S (S (S (S (S (S (S (S (S (S (S (S
+      (S (S (S (S (S (S (S (S (S (S (S (S (S (S (S (S (S (S (S (S (S (S (S (S
+      (S (S (S (S (S (S (S (S (S (S (S (S (S (S (S (S (S (S (S (S (S (S (S (S
+      (S (S (S (S (S (S (S (S (S (S (S (S (S (S (S (S (S (S (S (S (S (S (S (S
+      (S (S (S (S (S (S (S (S (S (S (S (S (S (S (S (S (S (S (S (S (S (S (S (S
+      (S (S (S (S (S (S (S (S (S (S (S (S (S (S (S (S (S (S (S (S (S (S (S (S
+      (S (S (S (S (S (S (S (S (S (S (S (S (S (S (S (S (S (S (S (S (S (S (S (S
+      (S (S (S (S (S (S (S (S (S (S (S (S (S (S (S (S (S (S (S (S (S (S (S (S
+      (S (S (S (S (S (S (S (S (S (S (S (S (S (S (S (S (S (S (S (S (S (S (S (S
+      (S (S (S (S (S (S (S (S (S (S (S (S (S (S (S (S (S (S (S (S (S (S (S (S
+      (S (S (S (S (S (S (S (S (S (S (S (S (S (S (S (S (S (S (S (S (S (S (S (S
+      (S (S (S (S (S (S (S (S (S (S (S (S (S (S (S (S (S (S (S (S (S (S (S (S
+      (S (S (S (S (S (S (S (S (S (S (S (S (S (S (S (S (S (S (S (S (S (S (S (S
+      (S (S (S (S (S (S (S (S (S (S (S (S (S (S (S (S (S (S (S (S (S (S (S (S
+      (S (S (S (S (S (S (S (S (S (S (S (S (S (S (S (S (S (S (S (S (S (S (S (S
+      (S (S (S (S (S (S (S (S (S (S (S (S (S (S (S (S (S (S (S (S (S (S (S (S
+      (S (S (S (S (S (S (S (S (S (S (S (S (S (S (S (S (S (S (S (S (S (S (S (S
+      (S (S (S (S (S (S (S (S (S (S (S (S (S (S (S (S (S (S (S (S (S (S (S (S
+      (S (S (S (S (S (S (S (S (S (S (S (S (S (S (S (S (S (S (S (S (S (S (S (S
+      (S (S (S (S (S (S (S (S (S (S (S (S (S (S (S (S (S (S (S (S (S (S (S (S
+      (S (S (S (S (S (S (S (S (S (S (S (S (S (S (S (S (S (S (S (S (S (S (S (S
+      (S (S (S (S (S (S (S (S (S (S (S (S (S (S (S (S (S (S (S (S (S (S (S (S
+      (S (S (S (S (S (S (S (S (S (S (S (S (S (S (S (S (S (S (S (S (S (S (S (S
+      (S (S (S (S (S (S (S (S (S (S (S (S (S (S (S (S (S (S (S (S (S (S (S (S
+      (S (S (S (S (S (S (S (S (S (S (S (S (S (S (S (S (S (S (S (S (S (S (S (S
+      (S (S (S (S (S (S (S (S (S (S (S (S (S (S (S (S (S (S (S (S (S (S (S (S
+      (S (S (S (S (S (S (S (S (S (S (S (S (S (S (S (S (S (S (S (S (S (S (S (S
+      (S (S (S (S (S (S (S (S (S (S (S (S (S (S (S (S (S (S (S (S (S (S (S (S
+      (S (S (S (S (S (S (S (S (S (S (S (S (S (S (S (S (S (S (S (S (S (S (S (S
+      (S (S (S (S (S (S (S (S (S (S (S (S (S (S (S (S (S (S (S (S (S (S (S (S
+      (S (S (S (S (S (S (S (S (S (S (S (S (S (S (S (S (S (S (S (S (S (S (S (S
+      (S (S (S (S (S (S (S (S (S (S (S (S (S (S (S (S (S (S (S (S (S (S
+      O)))))))))))))))))))))))))))))))))))))))))))))))))))))))))))))))))))))))))))))))))))))))))))))))))))))))))))))))))))))))))))))))))))))))))))))))))))))))))))))))))))))))))))))))))))))))))))))))))))))))))))))))))))))))))))))))))))))))))))))))))))))))))))))))))))))))))))))))))))))))))))))))))))))))))))))))))))))))))))))))))))))))))))))))))))))))))))))))))))))))))))))))))))))))))))))))))))))))))))))))))))))))))))))))))))))))))))))))))))))))))))))))))))))))))))))))))))))))))))))))))))))))))))))))))))))))))))))))))))))))))))))))))))))))))))))))))))))))))))))))))))))))))))))))))))))))))))))))))))))))))))))))))))))))))))))))))))))))))))))))))))))))))))))))))))))))))))))))))))))))))))))))))))))))))))))))))))))))))))))))))))))))))))))))))))))))))))))))))))))))))))))))))))))))))))))))))))))))))))))))))))))))))))))))))))))))))))))))))))))))))))))))))))))))))))))))))))))))))))))))))))))))))))))))))))))))))))))))))))))))))))))))))))))))))))))))))))))))))))
+  in
+  { code = c; is_alphabetic = ((||) ((||) lower upper) greek_lambda);
+  is_alphanumeric = ((||) ((||) ((||) lower upper) digit) greek_lambda);
+  is_whitespace =
+  ((||)
+    (Nat.eqb n0 (S (S (S (S (S (S (S (S (S (S (S (S (S (S (S (S (S (S (S (S
+      (S (S (S (S (S (S (S (S (S (S (S (S O)))))))))))))))))))))))))))))))))
+    ((&&) (Nat.leb (S (S (S (S (S (S (S (S (S O))))))))) n0)
+      (Nat.leb n0 (S (S (S (S (S (S (S (S (S (S (S (S (S O))))))))))))))));
+  to_digit16 =
+  (if digit
+   then Some
+          (sub n0 (S (S (S (S (S (S (S (S (S (S (S (S (S (S (S (S (S (S (S (S
+            (S (S (S (S (S (S (S (S (S (S (S (S (S (S (S (S (S (S (S (S (S (S
+            (S (S (S (S (S (S
+            O)))))))))))))))))))))))))))))))))))))))))))))))))
+   else if (&&)
+             (Nat.leb (S (S (S (S (S (S (S (S (S (S (S (S (S (S (S (S (S (S
+               (S (S (S (S (S (S (S (S (S (S (S (S (S (S (S (S (S (S (S (S (S
+               (S (S (S (S (S (S (S (S (S (S (S (S (S (S (S (S (S (S (S (S (S
+               (S (S (S (S (S (S (S (S (S (S (S (S (S (S (S (S (S (S (S (S (S
+               (S (S (S (S (S (S (S (S (S (S (S (S (S (S (S (S
+               O)))))))))))))))))))))))))))))))))))))))))))))))))))))))))))))))))))))))))))))))))))))))))))))))))
+               n0)
+             (Nat.leb n0 (S (S (S (S (S (S (S (S (S (S (S (S (S (S (S (S (S
+               (S (S (S (S (S (S (S (S (S (S (S (S (S (S (S (S (S (S (S (S (S
+               (S (S (S (S (S (S (S (S (S (S (S (S (S (S (S (S (S (S (S (S (S
+               (S (S (S (S (S (S (S (S (S (S (S (S (S (S (S (S (S (S (S (S (S
+               (S (S (S (S (S (S (S (S (S (S (S (S (S (S (S (S (S (S (S (S (S
+               (S
+               O)))))))))))))))))))))))))))))))))))))))))))))))))))))))))))))))))))))))))))))))))))))))))))))))))))))))
+        then Some
+               (sub n0 (S (S (S (S (S (S (S (S (S (S (S (S (S (S (S (S (S (S
+                 (S (S (S (S (S (S (S (S (S (S (S (S (S (S (S (S (S (S (S (S
+                 (S (S (S (S (S (S (S (S (S (S (S (S (S (S (S (S (S (S (S (S
+                 (S (S (S (S (S (S (S (S (S (S (S (S (S (S (S (S (S (S (S (S
+                 (S (S (S (S (S (S (S (S (S
+                 O))))))))))))))))))))))))))))))))))))))))))))))))))))))))))))))))))))))))))))))))))))))))
+        else if (&&)
+                  (Nat.leb (S (S (S (S (S (S (S (S (S (S (S (S (S (S (S (S (S
+                    (S (S (S (S (S (S (S (S (S (S (S (S (S (S (S (S (S (S (S
+                    (S (S (S (S (S (S (S (S (S (S (S (S (S (S (S (S (S (S (S
+                    (S (S (S (S (S (S (S (S (S (S
+                    O)))))))))))))))))))))))))))))))))))))))))))))))))))))))))))))))))
+                    n0)
+                  (Nat.leb n0 (S (S (S (S (S (S (S (S (S (S (S (S (S (S (S (S
+                    (S (S (S (S (S (S (S (S (S (S (S (S (S (S (S (S (S (S (S
+                    (S (S (S (S (S (S (S (S (S (S (S (S (S (S (S (S (S (S (S
+                    (S (S (S (S (S (S (S (S (S (S (S (S (S (S (S (S
+                    O)))))))))))))))))))))))))))))))))))))))))))))))))))))))))))))))))))))))
+             then Some
+                    (sub n0 (S (S (S (S (S (S (S (S (S (S (S (S (S (S (S (S
+                      (S (S (S (S (S (S (S (S (S (S (S (S (S (S (S (S (S (S
+                      (S (S (S (S (S (S (S (S (S (S (S (S (S (S (S (S (S (S
+                      (S (S (S
+                      O))))))))))))))))))))))))))))))))))))))))))))))))))))))))
+             else None) }
 
 type term_error =
 | NotVar
@@ -831,8 +1576,8 @@ let rec run_history fuel h t =
   match h with
   | [] -> Some (t, [])
   | p :: h' ->
-    let (o, n) = p in
-    (match reduce_m fuel o n t with
+    let (o, n0) = p in
+    (match reduce_m fuel o n0 t with
      | Some p0 ->
        let (t1, c) = p0 in
        (match run_history fuel h' t1 with
@@ -843,7 +1588,7 @@ let rec run_history fuel h t =
 (** val unvar : term -> (term_error, nat) sum **)
 
 let unvar = function
-| Var n -> Inr n
+| Var n0 -> Inr n0
 | _ -> Inl NotVar
 
 (** val unabs : term -> (term_error, term) sum **)
@@ -874,8 +1619,8 @@ let rhs t =
 
 (** val set_var : nat -> term -> term **)
 
-let set_var n t = match t with
-| Var _ -> Var n
+let set_var n0 t = match t with
+| Var _ -> Var n0
 | _ -> t
 
 (** val set_abs : term -> term -> term **)
@@ -908,8 +1653,8 @@ let app_c l r0 =
 
 (** val abs_macro : nat -> term -> term **)
 
-let rec abs_macro n t =
-  match n with
+let rec abs_macro n0 t =
+  match n0 with
   | O -> t
   | S k -> abs_macro k (Abs t)
 
@@ -979,3 +1724,441 @@ let rec sc_loop fuel stack =
 
 let is_supercombinator t =
   sc_loop (S (size t)) ((O, t) :: [])
+
+type parse_error =
+| InvalidCharacter of nat * n
+| InvalidExpression
+| EmptyExpression
+
+type token =
+| Lambda
+| Lparen
+| Rparen
+| Number of nat
+
+type ctoken =
+| CLambda of name
+| CLparen
+| CRparen
+| CName of name
+
+(** val tokenize_dbr_from :
+    nat -> cchar list -> (parse_error, token list) sum **)
+
+let rec tokenize_dbr_from i = function
+| [] -> Inr []
+| c :: rest ->
+  let continue = fun t ->
+    match tokenize_dbr_from (S i) rest with
+    | Inl e -> Inl e
+    | Inr ts -> Inr (match t with
+                     | Some t0 -> t0 :: ts
+                     | None -> ts)
+  in
+  if is_lambda_glyph c
+  then continue (Some Lambda)
+  else if is_char c_lparen c
+       then continue (Some Lparen)
+       else if is_char c_rparen c
+            then continue (Some Rparen)
+            else (match c.to_digit16 with
+                  | Some n0 -> continue (Some (Number n0))
+                  | None ->
+                    if c.is_whitespace
+                    then continue None
+                    else Inl (InvalidCharacter (i, c.code)))
+
+(** val tokenize_dbr : cchar list -> (parse_error, token list) sum **)
+
+let tokenize_dbr s =
+  tokenize_dbr_from O s
+
+(** val scan_binder :
+    nat -> cchar list -> name -> bool -> (parse_error, (name * cchar
+    list) * nat) sum **)
+
+let rec scan_binder i s nm first_char =
+  match s with
+  | [] -> Inr ((nm, []), i)
+  | c :: rest ->
+    if (&&) (is_char c_dot c) (negb first_char)
+    then Inr ((nm, rest), (S i))
+    else if (&&) first_char c.is_alphabetic
+         then scan_binder (S i) rest (app nm (c.code :: [])) false
+         else if (&&) (negb first_char) c.is_alphanumeric
+              then scan_binder (S i) rest (app nm (c.code :: [])) false
+              else Inl (InvalidCharacter (i, c.code))
+
+(** val scan_name : nat -> cchar list -> name -> (name * cchar list) * nat **)
+
+let rec scan_name i s nm =
+  match s with
+  | [] -> ((nm, []), i)
+  | c :: rest ->
+    if c.is_alphanumeric
+    then scan_name (S i) rest (app nm (c.code :: []))
+    else ((nm, s), i)
+
+(** val tokenize_cla_from :
+    nat -> nat -> cchar list -> (parse_error, ctoken list) sum **)
+
+let rec tokenize_cla_from fuel i s =
+  match fuel with
+  | O -> Inr []
+  | S f ->
+    (match s with
+     | [] -> Inr []
+     | c :: rest ->
+       if is_lambda_glyph c
+       then (match scan_binder (S i) rest [] true with
+             | Inl e -> Inl e
+             | Inr p ->
+               let (p0, i') = p in
+               let (nm, rest') = p0 in
+               (match tokenize_cla_from f i' rest' with
+                | Inl e -> Inl e
+                | Inr ts -> Inr ((CLambda nm) :: ts)))
+       else if is_char c_lparen c
+            then (match tokenize_cla_from f (S i) rest with
+                  | Inl e -> Inl e
+                  | Inr ts -> Inr (CLparen :: ts))
+            else if is_char c_rparen c
+                 then (match tokenize_cla_from f (S i) rest with
+                       | Inl e -> Inl e
+                       | Inr ts -> Inr (CRparen :: ts))
+                 else if c.is_whitespace
+                      then tokenize_cla_from f (S i) rest
+                      else if c.is_alphabetic
+                           then let (p, i') =
+                                  scan_name (S i) rest (c.code :: [])
+                                in
+                                let (nm, rest') = p in
+                                (match tokenize_cla_from f i' rest' with
+                                 | Inl e -> Inl e
+                                 | Inr ts -> Inr ((CName nm) :: ts))
+                           else Inl (InvalidCharacter (i, c.code)))
+
+(** val tokenize_cla : cchar list -> (parse_error, ctoken list) sum **)
+
+let tokenize_cla s =
+  tokenize_cla_from (S (length s)) O s
+
+(** val rposition : name -> name list -> nat option **)
+
+let rec rposition nm = function
+| [] -> None
+| x :: r0 ->
+  if name_eqb x nm
+  then Some O
+  else option_map (fun x0 -> S x0) (rposition nm r0)
+
+(** val convert_from :
+    nat -> ctoken list -> name list -> nat -> token list -> (token
+    list * ctoken list) * name list **)
+
+let rec convert_from fuel toks stack inner out =
+  match fuel with
+  | O -> ((out, toks), stack)
+  | S f ->
+    (match toks with
+     | [] -> ((out, []), stack)
+     | c :: rest ->
+       (match c with
+        | CLambda nm ->
+          convert_from f rest (app stack (nm :: [])) (S inner)
+            (app out (Lambda :: []))
+        | CLparen ->
+          let (p, stack') = convert_from f rest stack O [] in
+          let (sub0, rest') = p in
+          convert_from f (tl rest') stack' inner
+            (app out (app (Lparen :: []) sub0))
+        | CRparen ->
+          (((app out (Rparen :: [])), toks),
+            (firstn (sub (length stack) inner) stack))
+        | CName nm ->
+          (match rposition nm (rev stack) with
+           | Some index ->
+             convert_from f rest stack inner
+               (app out ((Number (S index)) :: []))
+           | None ->
+             convert_from f rest (nm :: stack) inner
+               (app out ((Number (S (length stack))) :: [])))))
+
+(** val convert_classic_tokens : ctoken list -> token list **)
+
+let convert_classic_tokens toks =
+  let (p, _) = convert_from (S (length toks)) toks [] O [] in
+  let (out, _) = p in out
+
+type expression =
+| EAbstraction
+| ESequence of expression list
+| EVariable of nat
+
+(** val ast_from :
+    nat -> token list -> bool -> expression list -> (parse_error,
+    expression * token list) sum **)
+
+let rec ast_from fuel toks nested acc =
+  match fuel with
+  | O -> Inl InvalidExpression
+  | S f ->
+    (match toks with
+     | [] ->
+       if nested then Inl InvalidExpression else Inr ((ESequence acc), [])
+     | t :: r0 ->
+       (match t with
+        | Lambda -> ast_from f r0 nested (app acc (EAbstraction :: []))
+        | Lparen ->
+          (match ast_from f r0 true [] with
+           | Inl e -> Inl e
+           | Inr p ->
+             let (sub0, r') = p in
+             ast_from f (tl r') nested (app acc (sub0 :: [])))
+        | Rparen ->
+          if nested
+          then Inr ((ESequence acc), toks)
+          else Inl InvalidExpression
+        | Number i -> ast_from f r0 nested (app acc ((EVariable i) :: []))))
+
+(** val get_ast : token list -> (parse_error, expression) sum **)
+
+let get_ast toks = match toks with
+| [] -> Inl EmptyExpression
+| _ :: _ ->
+  (match ast_from (S (length toks)) toks false [] with
+   | Inl e -> Inl e
+   | Inr p -> let (e, _) = p in Inr e)
+
+(** val fold_terms : term list -> (parse_error, term) sum **)
+
+let fold_terms = function
+| [] -> Inl EmptyExpression
+| fst0 :: rest -> Inr (fold_left (fun x x0 -> App (x, x0)) rest fst0)
+
+(** val abs_times : nat -> term -> term **)
+
+let rec abs_times n0 t =
+  match n0 with
+  | O -> t
+  | S k -> abs_times k (Abs t)
+
+(** val expr_size : expression -> nat **)
+
+let rec expr_size = function
+| ESequence l -> S (fold_right (fun x acc -> add (expr_size x) acc) O l)
+| _ -> S O
+
+(** val exprs_size : expression list -> nat **)
+
+let exprs_size l =
+  fold_right (fun x acc -> add (expr_size x) acc) O l
+
+(** val fold_exprs_from :
+    nat -> expression list -> nat -> term list -> (parse_error, term) sum **)
+
+let rec fold_exprs_from fuel exprs depth output =
+  match fuel with
+  | O -> Inl InvalidExpression
+  | S f ->
+    let finish = fun output0 ->
+      match fold_terms output0 with
+      | Inl e -> Inl e
+      | Inr t -> Inr (abs_times depth t)
+    in
+    (match exprs with
+     | [] -> finish output
+     | e :: r0 ->
+       (match e with
+        | EAbstraction ->
+          (match output with
+           | [] -> fold_exprs_from f r0 (S depth) output
+           | _ :: _ ->
+             (match fold_exprs_from f exprs O [] with
+              | Inl e0 -> Inl e0
+              | Inr t -> finish (app output (t :: []))))
+        | ESequence es ->
+          (match fold_exprs_from f es O [] with
+           | Inl e0 -> Inl e0
+           | Inr t -> fold_exprs_from f r0 depth (app output (t :: [])))
+        | EVariable i ->
+          fold_exprs_from f r0 depth (app output ((Var i) :: []))))
+
+(** val fold_exprs : expression list -> (parse_error, term) sum **)
+
+let fold_exprs exprs =
+  fold_exprs_from (S (mul (S (S O)) (exprs_size exprs))) exprs O []
+
+type notation =
+| Classic
+| DeBruijn
+
+(** val parse : cchar list -> notation -> (parse_error, term) sum **)
+
+let parse input n0 =
+  let tokens =
+    match n0 with
+    | Classic ->
+      (match tokenize_cla input with
+       | Inl e -> Inl e
+       | Inr ts -> Inr (convert_classic_tokens ts))
+    | DeBruijn -> tokenize_dbr input
+  in
+  (match tokens with
+   | Inl e -> Inl e
+   | Inr tokens0 ->
+     (match get_ast tokens0 with
+      | Inl e -> Inl e
+      | Inr e ->
+        (match e with
+         | ESequence exprs -> fold_exprs exprs
+         | _ -> Inl InvalidExpression)))
+
+type str0 = n list
+
+(** val base26_loop : nat -> nat -> n list -> n list **)
+
+let rec base26_loop fuel n0 buf =
+  match fuel with
+  | O -> buf
+  | S f ->
+    if Nat.eqb n0 O
+    then buf
+    else let m =
+           Nat.modulo n0 (S (S (S (S (S (S (S (S (S (S (S (S (S (S (S (S (S
+             (S (S (S (S (S (S (S (S (S O))))))))))))))))))))))))))
+         in
+         let m0 =
+           if Nat.eqb m O
+           then S (S (S (S (S (S (S (S (S (S (S (S (S (S (S (S (S (S (S (S (S
+                  (S (S (S (S (S O)))))))))))))))))))))))))
+           else m
+         in
+         base26_loop f
+           (Nat.div (sub n0 (S O)) (S (S (S (S (S (S (S (S (S (S (S (S (S (S
+             (S (S (S (S (S (S (S (S (S (S (S (S O)))))))))))))))))))))))))))
+           (app buf
+             ((N.of_nat
+                (sub
+                  (add m0 (S (S (S (S (S (S (S (S (S (S (S (S (S (S (S (S (S
+                    (S (S (S (S (S (S (S (S (S (S (S (S (S (S (S (S (S (S (S
+                    (S (S (S (S (S (S (S (S (S (S (S (S (S (S (S (S (S (S (S
+                    (S (S (S (S (S (S (S (S (S (S (S (S (S (S (S (S (S (S (S
+                    (S (S (S (S (S (S (S (S (S (S (S (S (S (S (S (S (S (S (S
+                    (S (S (S (S
+                    O))))))))))))))))))))))))))))))))))))))))))))))))))))))))))))))))))))))))))))))))))))))))))))))))))
+                  (S O))) :: []))
+
+(** val base26_encode : nat -> str0 **)
+
+let base26_encode n0 =
+  rev (base26_loop (S (S n0)) (S n0) [])
+
+(** val s_undefined : str0 **)
+
+let s_undefined =
+  (Npos (XI (XO (XI (XO (XI (XI XH))))))) :: ((Npos (XO (XI (XI (XI (XO (XI
+    XH))))))) :: ((Npos (XO (XO (XI (XO (XO (XI XH))))))) :: ((Npos (XI (XO
+    (XI (XO (XO (XI XH))))))) :: ((Npos (XO (XI (XI (XO (XO (XI
+    XH))))))) :: ((Npos (XI (XO (XO (XI (XO (XI XH))))))) :: ((Npos (XO (XI
+    (XI (XI (XO (XI XH))))))) :: ((Npos (XI (XO (XI (XO (XO (XI
+    XH))))))) :: ((Npos (XO (XO (XI (XO (XO (XI XH))))))) :: []))))))))
+
+(** val parenthesize_if : str0 -> bool -> str0 **)
+
+let parenthesize_if s = function
+| true ->
+  app ((Npos (XO (XO (XO (XI (XO XH)))))) :: [])
+    (app s ((Npos (XI (XO (XO (XI (XO XH)))))) :: []))
+| false -> s
+
+(** val show_precedence_cla : n -> term -> nat -> nat -> nat -> str0 **)
+
+let rec show_precedence_cla lambda t ctx max_depth0 depth =
+  match t with
+  | Var i ->
+    (match i with
+     | O -> s_undefined
+     | S _ ->
+       let ix =
+         if Nat.leb i depth
+         then sub depth i
+         else sub (sub (add max_depth0 i) depth) (S O)
+       in
+       base26_encode ix)
+  | Abs b ->
+    let ret0 =
+      app (lambda :: [])
+        (app (base26_encode depth)
+          (app ((Npos (XO (XI (XI (XI (XO XH)))))) :: [])
+            (show_precedence_cla lambda b O max_depth0 (S depth))))
+    in
+    parenthesize_if ret0 (Nat.ltb (S O) ctx)
+  | App (t1, t2) ->
+    let ret0 =
+      app (show_precedence_cla lambda t1 (S (S O)) max_depth0 depth)
+        (app ((Npos (XO (XO (XO (XO (XO XH)))))) :: [])
+          (show_precedence_cla lambda t2 (S (S (S O))) max_depth0 depth))
+    in
+    parenthesize_if ret0 (Nat.eqb ctx (S (S (S O))))
+
+(** val display : n -> term -> str0 **)
+
+let display lambda t =
+  show_precedence_cla lambda t O (max_depth t) O
+
+(** val hex_digit : nat -> n **)
+
+let hex_digit d =
+  if Nat.ltb d (S (S (S (S (S (S (S (S (S (S O))))))))))
+  then N.of_nat
+         (add (S (S (S (S (S (S (S (S (S (S (S (S (S (S (S (S (S (S (S (S (S
+           (S (S (S (S (S (S (S (S (S (S (S (S (S (S (S (S (S (S (S (S (S (S
+           (S (S (S (S (S O)))))))))))))))))))))))))))))))))))))))))))))))) d)
+  else N.of_nat
+         (add (S (S (S (S (S (S (S (S (S (S (S (S (S (S (S (S (S (S (S (S (S
+           (S (S (S (S (S (S (S (S (S (S (S (S (S (S (S (S (S (S (S (S (S (S
+           (S (S (S (S (S (S (S (S (S (S (S (S
+           O))))))))))))))))))))))))))))))))))))))))))))))))))))))) d)
+
+(** val hex_loop : nat -> nat -> str0 -> str0 **)
+
+let rec hex_loop fuel n0 acc =
+  match fuel with
+  | O -> acc
+  | S f ->
+    if Nat.ltb n0 (S (S (S (S (S (S (S (S (S (S (S (S (S (S (S (S
+         O))))))))))))))))
+    then (hex_digit n0) :: acc
+    else hex_loop f
+           (Nat.div n0 (S (S (S (S (S (S (S (S (S (S (S (S (S (S (S (S
+             O)))))))))))))))))
+           ((hex_digit
+              (Nat.modulo n0 (S (S (S (S (S (S (S (S (S (S (S (S (S (S (S (S
+                O)))))))))))))))))) :: acc)
+
+(** val upper_hex : nat -> str0 **)
+
+let upper_hex n0 =
+  hex_loop (S n0) n0 []
+
+(** val show_precedence_dbr : n -> term -> nat -> str0 **)
+
+let rec show_precedence_dbr lambda t ctx =
+  match t with
+  | Var i -> (match i with
+              | O -> s_undefined
+              | S _ -> upper_hex i)
+  | Abs b ->
+    parenthesize_if (app (lambda :: []) (show_precedence_dbr lambda b O))
+      (Nat.ltb (S O) ctx)
+  | App (t1, t2) ->
+    parenthesize_if
+      (app (show_precedence_dbr lambda t1 (S (S O)))
+        (show_precedence_dbr lambda t2 (S (S (S O)))))
+      (Nat.eqb ctx (S (S (S O))))
+
+(** val debug : n -> term -> str0 **)
+
+let debug lambda t =
+  show_precedence_dbr lambda t O
